@@ -32,9 +32,10 @@ def node_id(s):
     return "/".join(parts) + ".py::" + "::".join(cls + [name])
 
 
-def run(pytest_args):
+def run(pytest_args, preload=False):
     out = tempfile.mktemp(suffix='.xml')
-    cmd = ['/venv/bin/python', '-m', 'pytest', '-q', '-p', 'no:cacheprovider', '--timeout=900',
+    launcher = (['-c', 'import agilerl.algorithms, sys, pytest; sys.exit(pytest.main(sys.argv[1:]))'] if preload else ['-m', 'pytest'])
+    cmd = ['/venv/bin/python'] + launcher + ['-q', '-p', 'no:cacheprovider', '--timeout=900',
            '--continue-on-collection-errors', f'--junitxml={out}'] + pytest_args
     repo = os.environ.get("BASELINE_REPO", "/repo")
     e2 = dict(env)
@@ -63,6 +64,13 @@ if stable_only:
     for f, ids in sorted(by_file.items()):
         p, _ = run(sorted(ids))
         passed |= p
+        want = {s for s in scope if node_id(s).split("::")[0] == f}
+        if want - passed:
+            # some tests of the pinned suite only pass in the order / import state of the whole-suite session (a test that
+            # needs an earlier test of its file, a module with an import cycle that an earlier test module resolves):
+            # run the whole file once more, with the package imported the way the whole-suite session has it by then
+            p2, _ = run([f], preload=True)
+            passed |= p2
 else:
     passed, seen = run(args)
     scope = stable if not args else {s for s in stable if s in seen}
